@@ -133,17 +133,54 @@ func mySeeds() []*Seed {
 				StructN([]F{{"from", true}, {"to", true}, {"unit", false}}, []irgen.Term{S("string"), S("int64"), S("string")}), Ref(P + ".Pos"), S("bool")})},
 			pos,
 		}}}},
-		// a panel-like object and one composable package (compose rule)
-		{Name: "compose", Pkgs: []irgen.PkgSpec{
+		// several plugin packages of one variant holding objects with the SAME
+		// names (Options, FieldConfig, Legend) whose same-named fields differ in
+		// nullability, requiredness and referred package: rules whose selector
+		// spans packages (by_variant; the "variants" seed has two variants), and
+		// the compose rule (dash.Panel is its source builder)
+		{Name: "plugins", Pkgs: []irgen.PkgSpec{
 			{Pkg: "dash", EntryPoint: "Panel", Objects: []irgen.ObjSpec{
 				{Name: "Panel", T: StructN([]F{{"type", true}, {"title", false}, {"options", false}, {"fieldConfig", false}},
 					[]irgen.Term{S("string"), S("string"), S("any"), Ref("dash.FieldConfig")})},
-				{Name: "FieldConfig", T: StructN([]F{{"unit", false}, {"custom", false}}, []irgen.Term{S("string"), S("any")})},
+				{Name: "FieldConfig", T: Struct1("custom", false, S("any"))},
 			}},
 			{Pkg: "ts", Identifier: "timeseries", Kind: string(ast.SchemaKindComposable), Variant: string(ast.SchemaVariantPanel), Objects: []irgen.ObjSpec{
-				{Name: "Options", T: StructN([]F{{"legend", false}, {"tags", false}}, []irgen.Term{S("bool"), Arr(S("string"))})},
-				{Name: "FieldConfig", T: StructN([]F{{"lineWidth", false}}, []irgen.Term{constrained("int64")})},
-				{Name: "Extra", T: Struct1("e", false, S("string"))},
+				{Name: "Options", T: StructN([]F{{"showLegend", true}, {"legend", false}}, []irgen.Term{S("bool"), Ref("ts.Legend")})},
+				{Name: "Legend", T: Struct1("placement", true, S("string"))},
+				{Name: "FieldConfig", T: Struct1("lineWidth", false, constrained("int64"))},
+			}},
+			{Pkg: "logs", Identifier: "logs", Kind: string(ast.SchemaKindComposable), Variant: string(ast.SchemaVariantPanel), Objects: []irgen.ObjSpec{
+				{Name: "Options", T: StructN([]F{{"showLegend", false}, {"legend", true}}, []irgen.Term{Nullable(S("bool")), Ref("logs.Legend")})},
+				{Name: "Legend", T: Struct1("placement", false, Nullable(S("string")))},
+				{Name: "FieldConfig", T: Struct1("lineWidth", true, S("string"))},
+			}},
+		}},
+		// plugin packages that hold nothing but an `Options` object (what a
+		// by_variant selector picks is then exactly the same-named objects), two
+		// packages per variant, same-named fields of different types
+		{Name: "variants", Pkgs: []irgen.PkgSpec{
+			{Pkg: "tsv", Identifier: "timeseries", Kind: string(ast.SchemaKindComposable), Variant: string(ast.SchemaVariantPanel), Objects: []irgen.ObjSpec{
+				{Name: "Options", T: StructN([]F{{"showLegend", true}, {"mode", false}, {"tags", false}}, []irgen.Term{S("bool"), S("string"), Arr(S("string"))})}}},
+			{Pkg: "logsv", Identifier: "logs", Kind: string(ast.SchemaKindComposable), Variant: string(ast.SchemaVariantPanel), Objects: []irgen.ObjSpec{
+				{Name: "Options", T: StructN([]F{{"showLegend", false}, {"mode", true}, {"wrap", false}}, []irgen.Term{Nullable(S("bool")), S("int64"), S("bool")})}}},
+			{Pkg: "promv", Identifier: "prometheus", Kind: string(ast.SchemaKindComposable), Variant: string(ast.SchemaVariantDataQuery), Objects: []irgen.ObjSpec{
+				{Name: "Options", T: StructN([]F{{"showLegend", true}, {"expr", true}}, []irgen.Term{S("string"), S("string")})}}},
+			{Pkg: "lokiv", Identifier: "loki", Kind: string(ast.SchemaKindComposable), Variant: string(ast.SchemaVariantDataQuery), Objects: []irgen.ObjSpec{
+				{Name: "Options", T: StructN([]F{{"showLegend", false}, {"expr", false}}, []irgen.Term{Arr(S("string")), Nullable(S("string"))})}}},
+		}},
+		// two packages with the same objects and the same disjunctions: cog's
+		// DisjunctionToType generates same-named structs in both, whose branches
+		// refer to the package's own S and T (generated_from_disjunction spans packages)
+		{Name: "uniondt2", Pkgs: []irgen.PkgSpec{
+			{Pkg: P, EntryPoint: "Root", Objects: []irgen.ObjSpec{
+				{Name: "Root", T: Struct1("u", true, irgen.Term{K: "disj", Sub: []irgen.Term{Ref(P + ".S"), Ref(P + ".T")}, Disc: true})},
+				{Name: "S", T: StructN([]F{{"kind", true}, {"x", true}}, []irgen.Term{Const("str"), S("string")})},
+				{Name: "T", T: StructN([]F{{"kind", true}, {"y", false}}, []irgen.Term{Const("int"), S("int64")})},
+			}},
+			{Pkg: "q", Objects: []irgen.ObjSpec{
+				{Name: "Root", T: Struct1("u", false, irgen.Term{K: "disj", Sub: []irgen.Term{Ref("q.S"), Ref("q.T")}, Disc: true})},
+				{Name: "S", T: StructN([]F{{"kind", true}, {"x", false}}, []irgen.Term{Const("str"), S("int64")})},
+				{Name: "T", T: StructN([]F{{"kind", true}, {"y", true}}, []irgen.Term{Const("int"), S("string")})},
 			}},
 		}},
 	}
@@ -156,6 +193,9 @@ func mySeeds() []*Seed {
 		sd := &Seed{Name: sp.Name, Spec: sp}
 		if sp.Name == "defaults" {
 			sd.Post = structDefault
+		}
+		if sp.Name == "uniondt2" {
+			sd.Post = disjunctionToType
 		}
 		seeds = append(seeds, sd)
 	}
